@@ -209,6 +209,14 @@ class Sender:
             else:
                 break
 
+    def _abortable_error(self, exc):
+        """The running transaction can only be aborted. Batches that were not
+        sent yet must not be sent any more: they have no sequence number and
+        their partition may not have been added to the transaction.
+        """
+        self._txn_manager.error_transaction(exc)
+        self._message_accumulator.fail_undrained(exc)
+
     def _coordinator_dead(self, coordinator_type):
         self._coordinators.pop(coordinator_type, None)
 
@@ -346,7 +354,7 @@ class Sender:
         try:
             node_id = await self._find_coordinator(CoordinationType.GROUP, group_id)
         except GroupAuthorizationFailedError as exc:
-            self._txn_manager.error_transaction(exc)
+            self._abortable_error(exc)
             return
         log.debug(
             "Sending offset-commit request with %s for group %s to %s",
@@ -545,7 +553,7 @@ class AddPartitionsToTxnHandler(BaseHandler):
                     )
                     raise error_type()
         if unauthorized_topics:
-            txn_manager.error_transaction(
+            self._sender._abortable_error(
                 TopicAuthorizationFailedError(unauthorized_topics)
             )
         return None
@@ -600,7 +608,7 @@ class AddOffsetsToTxnHandler(BaseHandler):
         elif error_type is TransactionalIdAuthorizationFailed:
             raise error_type(txn_manager.transactional_id)
         elif error_type is GroupAuthorizationFailedError:
-            txn_manager.error_transaction(error_type(self._group_id))
+            self._sender._abortable_error(error_type(self._group_id))
             return None
         else:
             log.error(
@@ -679,7 +687,7 @@ class TxnOffsetCommitHandler(BaseHandler):
                     raise error_type(txn_manager.transactional_id)
                 elif error_type is GroupAuthorizationFailedError:
                     exc = error_type(self._group_id)
-                    txn_manager.error_transaction(exc)
+                    self._sender._abortable_error(exc)
                     return None
                 else:
                     log.error(
